@@ -33,7 +33,8 @@ NAMED = [C(1, "bool"), C(0, "bool"), C(2, "T_*"), C(3, "T_*")]
 STRS = [S(b""), S(b"a"), S(b"ab"), S(b"abc"), S(b"ba"), S(b"bc"), S(b"foobar"), S(b"bar"), S(b"foo"), S(b"a\0b"), S(b"\0"),
         S(b"\xff\x80"), S(b"^a"), S(b"b$"), S(b"o+b"), S(b"a.c")]
 SEQS = [Q([]), Q([C(1)]), Q([C(1), C(2)]), Q([C(2), C(1)]), Q([C(1), C(2), C(3)]), Q([C(2), C(3)]), Q([C(3)]),
-        Q([S(b"a"), C(1)]), Q([Q([])]), Q([Q([C(1)]), S(b"")]), Q([C(1, "hex"), C(2)])]
+        Q([S(b"a"), C(1)]), Q([Q([])]), Q([Q([C(1)]), S(b"")]), Q([C(1, "hex"), C(2)]),
+        Q([C(1), C(2), C(3), C(4)]), Q([C(3), C(4)]), Q([C(1), C(2), C(3), C(4), C(5)]), Q([C(2), C(3), C(4)])]
 POOL = INTS + NAMED + STRS + SEQS
 
 UNARY = ["length", "elem", "relem", "?empty", "!empty", "value", "hex", "dec", "oct", "bin", "type", "pos",
@@ -90,6 +91,9 @@ def histories(stack, rnd):
         if rnd.random() < 0.6:
             parts += [rnd.choice(junk), ("word", "drop")]
     yield "junk-drop", parts, ()
+    # grow the stack well past the 4-slot type profile, then pop back down to the operands
+    k = rnd.randint(max(1, 5 - n), 6)
+    yield "deep-junk", lits + [rnd.choice(junk) for _ in range(k)] + [("word", "drop")] * k, ()
     if n >= 2:
         # push the top two in the wrong order, then swap; or use over/rot
         parts = lits[:-2] + [lits[-1], lits[-2], ("word", "swap")]
@@ -121,7 +125,7 @@ def check(drv, ev, stack, words, rnd, all_hist=True):
             ev.inconc("watchdog")
             continue
         ops = stack[-3:]
-        nt = len(stack) >= 5 or hname in ("junk-drop", "rot", "swap") or any(
+        nt = len(stack) >= 5 or hname in ("junk-drop", "deep-junk", "rot", "swap") or any(
             (v.t == "s" and (v.data == b"" or b"\0" in v.data)) or (v.t == "q" and not v.items) for v in ops) \
             or bool(o.ctx and (o.ctx.soft_certain or o.ctx.soft_maybe))
         if o.status == "inconclusive":
@@ -149,6 +153,63 @@ def check(drv, ev, stack, words, rnd, all_hist=True):
                        "results": [[CMP.show(v) for v in s] for s in (o.stream.items[:3] if o.stream else [])]})
 
 
+# "every operation numbers its own results afresh": an enumerating operation fed
+# several stacks in a row restarts its numbering for each of them.
+ENUM_OPS = {
+    "elem": [("word", "elem")],
+    "relem": [("word", "relem")],
+    "fmt-elem": [("str", [b"<", ("word", "elem"), b">"], False)],
+    "fmt-relem-2": [("str", [("word", "relem"), b"-", ("word", "dup")], False)],
+    "fmt-s": [("str", [b"[", ("cat", []), b"]"], False)],
+    "elem-elem": [("word", "elem"), ("word", "elem")],
+    "dup-elem": [("word", "dup"), ("word", "elem")],
+}
+ENUM_TAILS = {"pos": [("word", "pos")], "plain": [], "?1": [("word", "?1")], "!0": [("word", "!0")],
+              "type-pos": [("word", "type"), ("word", "pos")]}
+STREAM_POOL = [Q([]), Q([C(1)]), Q([C(1), C(2)]), Q([C(1), C(2), C(3)]), S(b""), S(b"a"), S(b"abc"), S(b"a\0b"),
+               Q([Q([C(1), C(2)]), S(b"xy")]), Q([S(b"ab"), Q([C(5)]), S(b"")])]
+
+
+def stream_cases():
+    out = []
+    for op in ENUM_OPS:
+        for tail in ENUM_TAILS:
+            for a in STREAM_POOL:
+                for b in STREAM_POOL:
+                    out.append(((op, tail), (a, b)))
+                    if a is not b and len(out) % 3 == 0:
+                        out.append(((op, tail), (a, b, a)))
+    return out
+
+
+def check_stream(drv, ev, srcs, w):
+    op, tail = w
+    node = ("cat", [("alt", [lit_node(v) for v in srcs])] + ENUM_OPS[op] + ENUM_TAILS[tail])
+    try:
+        o = run_case(drv, node, (), limit=500, steps=100000)
+    except DriverCrash as e:
+        ev.violations.append({"property": PID, "query": render(node), "stack_enc": [],
+                              "reason": "driver crashed: " + e.report[-2500:], "ast": repr(node),
+                              "signature": "C11:crash:stream:%s:%s" % w})
+        return
+    except DriverTimeout:
+        ev.inconc("watchdog")
+        return
+    if o.status == "inconclusive":
+        ev.inconc(o.reason.split(":")[0][:50])
+        return
+    multi = sum(1 for v in srcs if (len(v.items) if v.t == "q" else len(v.data)) >= 2)
+    ev.case(key=("stream", w, repr(srcs)), nontrivial=multi >= 2)
+    ev.label("history:stream")
+    if multi >= 2:
+        ev.label("stream:renumbered")
+    if o.status == "violation":
+        ev.violations.append({"property": PID, "query": o.text, "stack_enc": [], "history": "stream",
+                              "reason": o.reason, "ast": repr(node),
+                              "engine_stderr": (o.reply or {}).get("stderr", b"").decode("latin-1")[:800],
+                              "signature": "C11:stream:%s:%s:%s" % (op, tail, o.text[:100])})
+
+
 def filler(rnd, n):
     return [rnd.choice(POOL) for _ in range(n)]
 
@@ -162,11 +223,16 @@ def work(task):
             cases = [(w, (v,)) for w in UNARY for v in POOL]
         elif kind == "binary":
             cases = [(w, (a, b)) for w in BINARY for a in POOL for b in POOL]
+        elif kind == "stream":
+            cases = stream_cases()
         else:
             pool3 = POOL[::3]
             cases = [(w, (a, b, c)) for w in TERNARY for a in pool3 for b in pool3 for c in pool3]
         for idx in range(lo, min(hi, len(cases))):
             w, ops = cases[idx]
+            if kind == "stream":
+                check_stream(drv, ev, ops, w)
+                continue
             rnd = random.Random((seed << 20) ^ idx ^ hash(kind) & 0xffff)
             depth_below = rnd.choice([0, 0, 1, 2, 3, 4]) if kind != "ternary" else rnd.choice([0, 1, 3])
             stack = filler(rnd, depth_below) + list(ops)
@@ -190,6 +256,8 @@ def ncases(kind):
         return len(UNARY) * len(POOL)
     if kind == "binary":
         return len(BINARY) * len(POOL) ** 2
+    if kind == "stream":
+        return len(stream_cases())
     return len(TERNARY) * len(POOL[::3]) ** 3
 
 
@@ -197,20 +265,21 @@ def main(tier, seed):
     t0 = time.time()
     ev = Evidence()
     tasks = []
-    for kind in ("unary", "binary", "ternary"):
+    for kind in ("unary", "binary", "ternary", "stream"):
         n = ncases(kind)
         step = max(50, n // 40 + 1)
         tasks += [(kind, lo, lo + step, seed, tier == "thorough") for lo in range(0, n, step)]
     ev.merge(run_pool(work, tasks))
     ev.extra["pool_values"] = len(POOL)
-    ev.extra["word_operand_tuples"] = sum(ncases(k) for k in ("unary", "binary", "ternary"))
+    ev.extra["word_operand_tuples"] = sum(ncases(k) for k in ("unary", "binary", "ternary", "stream"))
     return finish(PID, tier, seed, ev, RULE, t0, exhaustive=True,
                   assumptions=["zwv/model.py word semantics written from the docstrings",
                                "?match is an unanchored POSIX-ERE search (tests.sh pins this against the docstring); only regexes in the subset common to POSIX and Python are judged",
                                "order across types / unrelated domains is not judged here (C09)",
                                "exhaustive=true: every (word, operand tuple) over the pool is enumerated; fillers and histories are sampled per tuple"],
-                  health={"all histories used": all(ev.labels.get("history:" + h, 0) > 0 for h in ("api", "literals", "junk-drop", "swap", "rot", "mixed")),
-                          "soft errors agreed": ev.labels.get("soft-error-agreed", 0) > 50})
+                  health={"all histories used": all(ev.labels.get("history:" + h, 0) > 0 for h in ("api", "literals", "junk-drop", "deep-junk", "swap", "rot", "mixed")),
+                          "soft errors agreed": ev.labels.get("soft-error-agreed", 0) > 50,
+                          "renumbering exercised": ev.labels.get("stream:renumbered", 0) > 200})
 
 
 def replay(path):
